@@ -285,7 +285,7 @@ PLANS["C17"] = [("dump", ["typed1", "unsafe2", "typed53"]), ("drive:reset", ["ty
 PLANS["C11"] = [("core", ["typed1", "unsafe1", "exch8", "mapt1"]), ("batch", ["typed1", "typed53"]),
                 ("drive:mem", ["typed1", "unsafe2", "exch8", "typed11", "mapt42"]), ("drive:big", ["typed1", "unsafe3", "typed53"]), ("drive:mem64", ["typed1", "unsafe3", "typed53"])]
 PLANS["C07"] = [("lock", ["typed1", "unsafe2", "typed11"]), ("drive:lock", ["typed1", "unsafe2", "typed11"]), ("drive:lock64", ["typed1", "unsafe1"]),
-                ("cursor", []), ("suite", [])]
+                ("cursor", []), ("suite", []), ("lockind", [])]
 PROP_CFG["C07"] = (dict(probes=2, misuse=8), dict(probes=4, misuse=-1))
 PLANS["C10"] = [("core", ["typed1", "unsafe1", "exch8", "mapt1"]), ("rel", ["typed1", "unsafe1", "typed11", "mapt1"]),
                 ("drive:rel2", ["typed11", "unsafe1", "mapt42"]), ("drive:wide", ["typed1", "unsafe2", "exch8"]), ("suite", [])]
@@ -935,6 +935,9 @@ def run_plan(ctx, plan):
         if fam == "poolind":
             pool_induction_stage(ctx)
             continue
+        if fam == "lockind":
+            lock_induction_stage(ctx)
+            continue
         if fam.startswith("drive:"):
             drive_family(ctx, fam[6:], cells, pc.get("probes", 0),
                          extra_cfg={k: v for k, v in pc.items() if k != "probes"})
@@ -960,7 +963,7 @@ def run_plan(ctx, plan):
             continue
         ctx.stats["sequences"] += gen["nseq"]
         # quick tier: replay a seed-chosen sample of the transitions sized to the budget
-        nbfs = max(1, len([1 for f, _ in plan if not f.startswith("drive:") and f not in ("obsmodel", "obsenum", "statsmodel", "cursor", "suite", "poolind")]))
+        nbfs = max(1, len([1 for f, _ in plan if not f.startswith("drive:") and f not in ("obsmodel", "obsenum", "statsmodel", "cursor", "suite", "poolind", "lockind")]))
         budget = (400000 // nbfs) if quick else (9000000 // nbfs)   # events per family
         cs = choose_cells(ctx, cells)
         per_seq = FAMILIES[fam]["tiers"][ctx.tier]["MaxHist"] + 7
@@ -1249,6 +1252,46 @@ def pool_induction_stage(ctx):
     if "violated" in (res["base"], res["step"]):
         ctx.stats["design_findings"].append(dict(family="pool-induction", invariant="IndInv is not inductive"))
     log("  pool: TLC %d states; Apalache base %s, step %s" % (dist, res["base"], res["step"]))
+
+
+def lock_induction_stage(ctx):
+    """C07 for histories of any length: ArkLockPool.tla (lock mask + bit pool) - TLC checks IndInv and the properties
+    on the reachable states, Apalache checks that IndInv is inductive, so that distinct bits for simultaneously open
+    queries, 'locked exactly while a query is open', no unbalanced unlock and the usable capacity hold after ANY
+    number of locks, unlocks (in any order) and resets, for pools of B bits."""
+    quick = ctx.tier == "quick"
+    bt, ba = (5, 6) if quick else (7, 10)
+    d = os.path.join(ctx.work, "lockpool")
+    os.makedirs(d, exist_ok=True)
+    shutil.copy(os.path.join(SPEC, "ArkLockPool.tla"), d)
+    open(os.path.join(d, "lp.cfg"), "w").write("SPECIFICATION Spec\nCONSTANTS\n  B = %d\n  ResetClearsAvail = TRUE\n"
+                                               "INVARIANTS IndInv HeldDistinct LockedExact NeverUnbalanced CapacityUsable\nCHECK_DEADLOCK FALSE\n" % bt)
+    p, dt = run(["tlc", "-workers", "8", "-metadir", os.path.join(d, "meta"), "-config", "lp.cfg", "ArkLockPool.tla"], 900, cwd=d)
+    gen, dist = parse_tlc_stats(p.stdout)
+    ctx.stats["states"] += dist
+    ctx.stats["transitions"] += gen
+    bad = None if "Model checking completed. No error has been found" in p.stdout else "IndInv / lock properties (reachable states)"
+    if bad and "is violated" not in p.stdout:
+        raise Inconclusive("TLC failed on ArkLockPool:\n" + p.stdout[-1500:])
+    ctx.stats["families"].append(dict(family="lockpool", states=dist, transitions=gen, wall_s=round(dt, 1), violated=bad, B=bt))
+    if bad:
+        ctx.stats["design_findings"].append(dict(family="lockpool", invariant=bad))
+    open(os.path.join(d, "apa.cfg"), "w").write("INIT Init\nNEXT Next\nCONSTANTS\n  B = %d\n  ResetClearsAvail = TRUE\n" % ba)
+    res = {}
+    for label, args in (("base", ["--init=Init", "--length=0"]), ("step", ["--init=IndInit", "--length=1"])):
+        pa, dta = run(["apalache-mc", "check", "--config=apa.cfg", "--inv=IndInv", "--out-dir=" + os.path.join(d, "apa-out")] + args + ["ArkLockPool.tla"],
+                      400 if quick else 2400, cwd=d)
+        if "The outcome is: NoError" in pa.stdout:
+            res[label] = "holds"
+        elif "The outcome is: Error" in pa.stdout:
+            res[label] = "violated"
+        else:
+            res[label] = "not completed (%s)" % (pa.stdout.strip().splitlines()[-1][:120] if pa.stdout.strip() else "no output")
+        res[label + "_wall_s"] = round(dta, 1)
+    ctx.stats["families"].append(dict(family="lockpool-induction", tool="apalache-mc 0.58", B=ba, **res))
+    if "violated" in (res["base"], res["step"]):
+        ctx.stats["design_findings"].append(dict(family="lockpool-induction", invariant="IndInv is not inductive"))
+    log("  lock pool: TLC %d states; Apalache base %s, step %s" % (dist, res["base"], res["step"]))
 
 
 def variants_for(ctx, pid):
